@@ -172,6 +172,7 @@ fn main() {
     let mut buf = String::new();
     let mut line_no = 0u64;
     let mut cmd_line = 1u64;
+    let mut scripted: Option<std::vec::IntoIter<String>> = None;
     for line in stdin.lock().lines() {
         let Ok(line) = line else { break };
         line_no += 1;
@@ -201,6 +202,30 @@ fn main() {
         };
         for cmd in cmds.iter() {
             let name = cmd.list().and_then(|l| l.first()).and_then(|h| h.simple_sym()).unwrap_or("").to_string();
+            // scripted-reply mode (C14): `(declare-const |@@scripted:<file>| Bool)` switches it on; from
+            // then on the reply to every get-value is the next line of <file>, verbatim (`\n` is a
+            // line break; a trailing `@@EXIT` means: write without newline and exit)
+            if name == "declare-const"
+                && let Some(n) = cmd.list().and_then(|l| l.get(1)).and_then(|x| x.sym())
+                && let Some(path) = n.strip_prefix("@@scripted:")
+            {
+                let text = std::fs::read_to_string(path).unwrap_or_default();
+                scripted = Some(text.lines().map(|l| l.to_string()).collect::<Vec<_>>().into_iter());
+                continue;
+            }
+            if name == "get-value"
+                && let Some(it) = scripted.as_mut()
+            {
+                let line = it.next().unwrap_or_default().replace("\\n", "\n");
+                if let Some(cut) = line.strip_suffix("@@EXIT") {
+                    ctl.log("<", cut);
+                    let _ = write!(out, "{cut}");
+                    let _ = out.flush();
+                    std::process::exit(0);
+                }
+                say(&mut out, &mut ctl, &line);
+                continue;
+            }
             let bearing = matches!(name.as_str(), "check-sat" | "check-sat-assuming" | "get-value" | "get-unsat-assumptions");
             // choose alternatives before executing
             if name == "check-sat" || name == "check-sat-assuming" {
